@@ -271,6 +271,32 @@ def work_trap(shard):
     return part
 
 
+SPECIAL_ARGS = ['1', '0', '-1', '70000', '1E38*10', 'EXP(100)', '2^200.5', '1/0', 'LOG(0)', 'SQR(-1)', '"s"', 'X$',
+                'CVS("ab")', 'FNB(1,2)', 'FND(1)', 'RND', 'A%(9)', 'VAL("1D300")']
+
+
+def work_deffn(shard):
+    """User functions called with every pair of special argument expressions, with soft and with
+    trapped errors, from a program line and from direct mode."""
+    config, pairs = shard
+    part = Partial()
+    env = Env()
+    try:
+        for a, b in pairs:
+            for trap in (False, True):
+                prog = [b'10 DEF FNB(X,Y)=X+Y:DEF FNC$(X$,Y$)=X$+Y$:DEF FND(Z)=FND(Z):DEF FNE%(P,Q#,R%)=P+Q#+R%',
+                        b'20 ON ERROR GOTO 100' if trap else b'20 REM',
+                        ('30 PRINT FNB(%s,%s):PRINT FNE%%(%s,%s,%s):PRINT FNC$(%s,%s)' % (a, b, b, a, b, a, b)).encode('latin-1'),
+                        b'40 END', b'100 PRINT "E";ERR;:RESUME NEXT']
+                seq = ['RUN', 'PRINT FNB(%s,%s)' % (a, b), 'PRINT FNB(%s,FNB(%s,%s))' % (a, b, a)]
+                case = {'config': config, 'mode': 'trap', 'lines': seq, 'program': [l.decode('latin-1') for l in prog]}
+                _exec(part, env, config, seq, 'DEFFN', case, program=prog)
+        part.sample({'config': config, 'args': list(pairs[0])})
+    finally:
+        env.close()
+    return part
+
+
 def _load_run_list(part, env, config, data, case, klass):
     s = env.session(config, horizon=60)
     try:
@@ -439,6 +465,12 @@ def legs(ctx):
                    exhaustive=True,
                    bound='%d statements as ON ERROR handler body x 3 ways of entering the handler (direct-mode error, '
                          'program-line error via GOTO, soft+hard error) x follow-up statement, 2 configurations' % len(benign)))
+    apairs = [(a, b) for a in SPECIAL_ARGS for b in SPECIAL_ARGS]
+    out.append(Leg('deffn', [(config, c) for config in (('api',) if q else CONFIGS) for c in chunked(apairs, 30)],
+                   work_deffn, exhaustive=True,
+                   bound='user functions of 2-3 parameters called with all %d ordered pairs of %d special argument '
+                         'expressions (overflowing, failing, wrong-typed, recursive), with soft and trapped errors, '
+                         'in a program and in direct mode' % (len(apairs), len(SPECIAL_ARGS))))
     # depth-2 histories
     firsts = STATE_CHANGERS_QUICK if q else STATE_CHANGERS
     pairs = [(f, b) for f in firsts for b in benign]
